@@ -12,6 +12,8 @@ UNITS = [
     U("parse_robust_after_section", "h_parse_robust", canaries=3, defines=["ROBUST_AFTER_SECTION"], defines_quick=["INI_LINES=2", "INI_LINE_MAX=4"], defines_thorough=["INI_LINES=2", "INI_LINE_MAX=6"], mem_gb=24,
       bound={"quick": "'[s]' followed by one line of <= 4 arbitrary bytes", "thorough": "<= 6 arbitrary bytes"}),
 ] + [U("parse_grammar_%d" % t, "h_parse_grammar", canaries=1, defines=["INI_LINES=2", "INI_LINE_MAX=12", "TEMPLATE=%d" % t], bound="documented line form #%d after a section header (fixed template)" % t) for t in range(6)] + [U("parse_grammar_%d" % t, "h_parse_grammar", canaries=1, defines=["INI_LINES=5" if t == 9 else "INI_LINES=2", "INI_LINE_MAX=12", "TEMPLATE=%d" % t], bound=("byte-order mark #%d in front of the first section header (fixed template)" % (t - 5)) if t < 9 else "fixed five-line file: line before any section, repeated key, comment line") for t in range(6, 10)] + [
+    U("getters_numeric", "h_getters_numeric", canaries=1, defines=["INI_LINES=2", "INI_LINE_MAX=4"], functions=["p_ini_file_parameter_int"], bound="fixed object, value text '010'"),
+    U("getters_numeric_boolean", "h_getters_numeric", canaries=1, tiers=["thorough"], timeout_thorough=3600, defines=["INI_LINES=2", "INI_LINE_MAX=4", "NUMERIC_BOOLEAN"], functions=[], bound="fixed object, value text '010' (the four strcmp calls of the boolean getter on a heap copy cost about ten minutes)"),
     U("getters_list", "h_getters_allocfail", canaries=2, defines=["GETTER=4", "INI_LINES=2", "INI_LINE_MAX=4"], functions=["p_ini_file_parameter_list"], bound="fixed object: list value '{abc d  ef}'"),
     U("getters", "h_getters", canaries=3, functions=["pp_ini_file_find_parameter", "p_ini_file_parameter_string", "p_ini_file_is_key_exists"], bound="one section, two keys, all names/values/queries of length <= 3"),
 ] + [U("getters_words_%d" % t, "h_getters_words", canaries=1, defines=["TEMPLATE=%d" % t, "INI_LINE_MAX=12"], functions=["p_ini_file_parameter_boolean", "p_ini_file_parameter_list", "p_ini_file_parameter_int"] if t == 0 else [],
@@ -23,4 +25,4 @@ LEVEL_TEXT = ("p_strchomp against its specification for every string up to the b
               "first '=', empty quoted value with a trailing comment, the three byte-order marks, a line before any section, a repeated key, a comment line) on ten concrete templates; getters: exact key match, last assignment wins, defaults, a brace list with shrinking items and repeated blanks (quick), boolean words and a second list (thorough). The parser's strings "
               "make unbounded contracts impractical with the installed back ends (string loops over symbolic bytes), hence small bounds; counted as bounded model checking only.")
 LEVEL_NOTE = ("Bounds: lines <= 12 bytes, <= 2 lines, object strings <= 3 characters; the 1024-byte line limit paths are NOT reached. Trusted: fgets/sscanf/isspace models (env/stdio_ini.c), allocator. "
-              "Not decided: numeric accuracy of p_strtod / atoi conversions, the grammar beyond the templates, behaviour where the real sscanf differs from the model.")
+              "Not decided: numeric accuracy of p_strtod, atoi itself (the getters are proved to hand it exactly the stored text), the grammar beyond the templates, behaviour where the real sscanf differs from the model.")
